@@ -8,7 +8,7 @@
    Mode "dump":   writes the "stream" universe with the implementation model's prediction to
                   IOEnv.PKG_OUT for the replay on the real flags_from_pkgconfig. *)
 EXTENDS PkgConfig, SequencesExt, Json, IOUtils
-CONSTANTS MaxToks, Mode
+CONSTANTS MaxToks, Mode, MergeFull
 VARIABLES st
 \* -I/a -I -L/b -lfoo -DX -DX=1 -DX=a=b -DX= -pthread -Wl,x
 TokAlpha == {<<45, 73, 47, 97>>, <<45, 73>>, <<45, 76, 47, 98>>, <<45, 108, 102, 111, 111>>, <<45, 68, 88>>, <<45, 68, 88, 61, 49>>, <<45, 68, 88, 61, 97, 61, 98>>, <<45, 68, 88, 61>>, <<45, 112, 116, 104, 114, 101, 97, 100>>, <<45, 87, 108, 44, 120>>}
@@ -25,8 +25,11 @@ StreamPkgs == {<<[cf |-> Out(a, sty), lb |-> Out(b, "plain"), fail |-> "none"]>>
               \cup
               {<<[cf |-> Out(b, "plain"), lb |-> Out(a, sty), fail |-> "none"]>> :
                     a \in Seqs(TokAlpha, MaxToks), b \in Seqs(TokAlpha, 1), sty \in Styles}
+MergeAlpha == IF MergeFull THEN TokAlpha
+              ELSE {t \in TokAlpha : t \in {<<45, 73, 47, 97>>, <<45, 108, 102, 111, 111>>, <<45, 68, 88, 61, 49>>,
+                                           <<45, 112, 116, 104, 114, 101, 97, 100>>}}      \* -I/a -lfoo -DX=1 -pthread
 OnePkg(n) == {[cf |-> Out(a, "plain"), lb |-> Out(b, "plain"), fail |-> f] :
-                    a \in Seqs(TokAlpha, n), b \in Seqs(TokAlpha, n), f \in {"none", "cflags", "libs"}}
+                    a \in Seqs(MergeAlpha, n), b \in Seqs(MergeAlpha, n), f \in {"none", "cflags", "libs"}}
 MergePkgs == {<<>>} \cup {<<p>> : p \in OnePkg(1)} \cup {<<p, q>> : p \in OnePkg(1), q \in OnePkg(1)}
 Universe == IF Mode = "merge" THEN MergePkgs ELSE StreamPkgs
 
@@ -34,9 +37,17 @@ Init == IF Mode = "dump" THEN st = <<>> ELSE st \in Universe
 Next == UNCHANGED st
 Spec == Init /\ [][Next]_st
 
-ImplSatisfiesIdeal == LET r == Impl(st) IN Verdict(st, r.err, r.res) = "ok"
-ImplEqualsIdeal == (\A i \in DOMAIN st : ~HasCross(Split(st[i].cf), Split(st[i].lb))) => Impl(st) = Ideal(st)
-SplitRenders == \A i \in DOMAIN st : \A x \in {st[i].cf, st[i].lb} : \A t \in DOMAIN Split(x) : Split(x)[t] \in TokAlpha
+\* one invariant evaluation tokenises once; the three clauses are reported separately through Clause
+Clause == LET tp == Tok(st)
+              r == ImplT(tp)
+          IN IF \E i \in DOMAIN tp : \E x \in {tp[i].cf, tp[i].lb} : \E t \in DOMAIN x : x[t] \notin TokAlpha THEN "split"
+             ELSE IF VerdictT(tp, r.err, r.res) # "ok" THEN "ideal"
+             ELSE IF (\A i \in DOMAIN tp : ~HasCross(tp[i].cf, tp[i].lb)) /\ r # IdealT(tp) THEN "equal"
+             ELSE "ok"
+SplitRenders == Clause # "split"
+ImplSatisfiesIdeal == Clause # "ideal"
+ImplEqualsIdeal == Clause # "equal"
+AllClauses == Clause = "ok"
 
 \* replay universe: all single-package streams of the bound + all package lists over a 2-token alphabet
 Small == {t \in TokAlpha : t \in {<<45, 73, 47, 97>>, <<45, 108, 102, 111, 111>>}}
